@@ -263,6 +263,8 @@ def evaluate(lib, sd, verd, model, texts, wd, tag, masks=None, skip=()):
 
 # ---- known findings: structural shapes --------------------------------------------------------------------------------------
 
+F93_SIG = "abstract-without-subtypes"
+F93_PROBE = "74beb18b741fa9be"
 SHAPE_A = "multi-inherit:supertype-missing"
 SHAPE_B = "multi-inherit:constraint-violated-at-one-occurrence"
 SHAPE_C = "multi-inherit:roots-joined,early-match"
@@ -649,6 +651,17 @@ def main(tier, seed):
             rc = max(rc, 1)
         else:
             ev.inconclusive.append("failure did not reproduce 3x: " + str(f.get("what"))[:300])
+    # F93 (open): ABSTRACT entity without any subtype. The graph generators make only entities with subtypes abstract, so the
+    # shape is outside the campaign by construction; its fixed minimal input is probed on every run.
+    k93 = findings.match(PROP, F93_SIG)
+    if k93:
+        ev.exclude("ABSTRACT entity without any subtype (finding F93): never generated, fixed probe only")
+        p93 = os.path.join(common.VERIF, "replays", PROP, F93_PROBE)
+        if os.path.exists(os.path.join(p93, "case.json")):
+            if replay(p93, quiet=True) == 1:
+                ev.known_hit(k93["id"])
+            else:
+                ev.inconclusive.append("open finding %s no longer reproduces on its probe" % k93["id"])
     for fid in ev.known:
         e = [x for x in findings.entries if x.get("id") == fid]
         common.print_known(PROP, e[0]["what"] if e else fid)
@@ -671,7 +684,7 @@ def main(tier, seed):
     return rc
 
 
-def replay(path):
+def replay(path, quiet=False):
     lib, root = farmcheck.replay_lib(path, exes=("p21drv",), name="c08-replay")
     if not lib["ok"]:
         print("schema of the replay no longer builds: " + lib["log"][-500:])
@@ -699,8 +712,11 @@ def replay(path):
             skip[mask] = sh
     fails, _ = evaluate(lib, sd, verd, model, texts, root, "replay", c["masks"], skip=skip)
     shutil.rmtree(root, ignore_errors=True)
+    if fails and quiet:
+        return 1
     if fails:
         common.print_violation(PROP, path, "; ".join(x["what"] for x in fails[:5]) + "\ngraph: " + graph_text(sd))
         return 1
-    print("replay passes")
+    if not quiet:
+        print("replay passes")
     return 0
